@@ -119,10 +119,10 @@ type Options struct {
 
 // Tx is one transaction to deliver.
 type Tx struct {
-	Signer string    // account name (first signer); more signers in Signers
+	Signer  string   // account name (first signer); more signers in Signers
 	Signers []string // optional additional signers
-	Msgs   []sdk.Msg
-	Tag    any // opaque, returned in the result
+	Msgs    []sdk.Msg
+	Tag     any // opaque, returned in the result
 }
 
 // TxResult is what the chain did with a transaction.
@@ -147,7 +147,7 @@ type TxResult struct {
 type BlockResult struct {
 	Height     int64
 	Time       time.Time
-	Halt       bool   // FinalizeBlock/Commit panicked or returned an error
+	Halt       bool // FinalizeBlock/Commit panicked or returned an error
 	HaltMsg    string
 	BeginState any // projection after BeginBlock (from the probe transaction)
 	Txs        []TxResult
